@@ -13,7 +13,7 @@ def skein_event(Nb, No, M, bitlen=None, key=None, prs=None, PK=None, kdf=None, n
     try:
         h = Skein(Nb, No, Yl=Yl, Yf=Yf, Ym=Ym, key=key, prs=prs, PK=PK, kdf=kdf, nonce=nonce)
         out = h(M, bitlen) if bitlen is not None else h(M)
-        e['obs'] = B(out) if isinstance(out, (bytes, bytearray)) else [-1]
+        e['obs'] = B(out) if isinstance(out, bytes) else [-1]
     except Exception as ex: e['raised'] = type(ex).__name__
     return e
 
@@ -23,7 +23,7 @@ def ubi_event(G, M, bitlen, typ, level, pos0):
     from crysp.threefish import Threefish
     e = dict(op='ubi', G=B(G), m=B(M), bitlen=-1 if bitlen is None else bitlen, type=TYPES[typ], level=level, pos0=limbs(pos0, 6), raised='', obs=[])
     try:
-        out = UBI(Threefish, G, Tweak(Type=typ, TreeLevel=level, Position=pos0))(M, bitlen); e['obs'] = B(out)
+        out = UBI(Threefish, G, Tweak(Type=typ, TreeLevel=level, Position=pos0))(M, bitlen); e['obs'] = core.SB(out)
     except Exception as ex: e['raised'] = type(ex).__name__
     return e
 
